@@ -839,6 +839,7 @@ func decoderLeaves(r *Rand, n int, o *Out) {
 }
 
 func streamC17(r *Rand, n int, o *Out) {
+	profileLeaves(o)
 	decoderLeaves(r.Fork(), n/8, o)
 	for i := 0; i < n; i++ {
 		rr := r.Fork()
@@ -883,7 +884,16 @@ func streamC17(r *Rand, n int, o *Out) {
 
 // ---- C18 ---------------------------------------------------------------------------------------------------
 
+// profileLeaves: the configuration tokens of the predefined profile OBJECTS decode, in the Lean driver, to the Lean values
+// `gsbProfile` / `semanticProfile` / the default profile that the theorems of Props/C18e, C17b are stated about
+func profileLeaves(o *Out) {
+	for _, p := range []*Prof{profWhatWg, profWhatWgSort, profGSB, profSemantic} {
+		leafSimple(o, "LPROF", p.Name+" "+p.Tok, "1")
+	}
+}
+
 func streamC18(r *Rand, n int, o *Out) {
+	profileLeaves(o)
 	decoderLeaves(r.Fork(), n/8, o)
 	for i := 0; i < n; i++ {
 		rr := r.Fork()
